@@ -251,7 +251,7 @@ def _register():
     for cell in ("interval", "triangle", "tetrahedron", "quadrilateral", "hexahedron", "prism"):
         for nm in ("poly-mass-P2", "poly-stiff-P2", "poly-P3xP1", "poly-facet"):
             FORM_NAMES.append(f"{nm}@{cell}")
-        for nm in ("vertex-dx", "vertex-ds", "vertex+deg2-dx", "vertex+deg2-ds", "deg2+vertex-ds", "quadel1", "quadel3", "quadelGLL", "quadel+deg", "three-rules"):
+        for nm in ("vertex-dx", "vertex-ds", "vertex+deg2-dx", "vertex+deg2-ds", "deg2+vertex-ds", "quadel1", "quadel3", "quadelGLL", "quadel+deg", "three-rules", "deg2+auto", "auto+deg0", "deg1+auto-facet"):
             FORM_NAMES.append(f"{nm}@{cell}")
 
 
@@ -309,6 +309,13 @@ def named_form(name):
         form = qc * ufl.exp(f) * v1 * ufl.dx(domain=mesh, metadata={"quadrature_degree": deg, **({"quadrature_rule": "GLL"} if nm == "quadelGLL" else {})})
         if nm == "quadel+deg":
             form = form + ufl.cos(g) * v1 * ufl.dx(domain=mesh, metadata={"quadrature_degree": 4})
+    elif nm == "deg2+auto":
+        # one integral with an explicit (too low) degree, one without metadata: the latter must get UFL's estimated degree
+        form = x[0] ** 2 * v1 * ufl.dx(domain=mesh, metadata={"quadrature_degree": 2}) + x[0] ** 6 * g * v1 * dx
+    elif nm == "auto+deg0":
+        form = 2.0 * v1 * ufl.dx(domain=mesh, metadata={"quadrature_degree": 0}) + (x[d - 1] ** 4 + x[0] ** 2) * f * v1 * dx
+    elif nm == "deg1+auto-facet":
+        form = x[0] * v1 * ufl.ds(domain=mesh, metadata={"quadrature_degree": 1}) + x[0] ** 5 * g * v1 * ds
     elif nm == "three-rules":
         form = (ufl.exp(f) * v1 * ufl.dx(domain=mesh, metadata={"quadrature_degree": 1}) + ufl.sin(g) * v1 * ufl.dx(domain=mesh, metadata={"quadrature_degree": 3})
                 + ufl.cos(f * g) * v1 * ufl.dx(domain=mesh, metadata={"quadrature_degree": 6}))
